@@ -68,6 +68,53 @@ theorem distinct_events_distinct_ids (env : Env) (val : Str) (e₁ e₂ : EthEve
   rw [int64OfBig_id _ (by omega) hn₁.2, int64OfBig_id _ (by omega) hn₂.2] at this
   exact ⟨this.1, by simpa using this.2⟩
 
+/-! ### the batch the relayer actually submits (`handleEthereumEvent` → `RelayToCosmos`) -/
+
+/-- For every batch of events (any length, any mix of lock / burn / malformed events at any position): the
+    transaction carries exactly one claim per submittable event, in order, and the k-th claim is the faithful
+    translation of ITS OWN (k-th submittable) source event — not of a neighbour. -/
+theorem batch_claims_faithful (env : Env) (val : Str) (events : List EthEvent) :
+    batchCountOK env val events (relayBatch env val events) = true ∧
+    batchFieldsOK env val events (relayBatch env val events) = true :=
+  relayBatch_positional env val events
+
+/-- a malformed event anywhere in the batch neither removes nor alters the others: the batch result is the
+    per-event result, concatenated -/
+theorem batch_is_per_event (env : Env) (val : Str) (xs ys : List EthEvent) :
+    relayBatch env val (xs ++ ys) = relayBatch env val xs ++ relayBatch env val ys := by
+  simp [relayBatch, List.filterMap_append, List.filter_append]
+
+/-- distinct events of one batch (same chain, nonces in the envelope, 20-byte senders) never share a claim
+    identity -/
+theorem batch_ids_distinct (env : Env) (val : Str) (events : List EthEvent) (ch : Int)
+    (hall : ∀ ev ∈ events, ev.chainId = ch ∧ 0 ≤ ev.nonce ∧ ev.nonce < 2 ^ 63 ∧ ev.sender.length = 40)
+    (c₁ c₂ : Claim) (h₁ : c₁ ∈ relayBatch env val events) (h₂ : c₂ ∈ relayBatch env val events)
+    (hid : claimId c₁ = claimId c₂) :
+    ∃ e₁ e₂, e₁ ∈ events ∧ e₂ ∈ events ∧ ethToClaim env val e₁ = .ok c₁ ∧ ethToClaim env val e₂ = .ok c₂ ∧
+      e₁.nonce = e₂.nonce ∧ e₁.sender = e₂.sender := by
+  obtain ⟨e₁, m₁, t₁⟩ := relayBatch_mem env val events c₁ h₁
+  obtain ⟨e₂, m₂, t₂⟩ := relayBatch_mem env val events c₂ h₂
+  obtain ⟨a1, a2, a3, a4⟩ := hall e₁ m₁
+  obtain ⟨b1, b2, b3, b4⟩ := hall e₂ m₂
+  have := distinct_events_distinct_ids env val e₁ e₂ c₁ c₂ t₁ t₂ (by rw [a1, b1]) ⟨a2, a3⟩ ⟨b2, b3⟩ a4 b4 hid
+  exact ⟨e₁, e₂, m₁, m₂, t₁, t₂, this.1, this.2⟩
+
+/-- non-vacuity: three events, the middle one malformed (recipient does not decode): two claims are
+    submitted, each carrying its own event's nonce, symbol and amount -/
+example :
+    let env : Env := { bech32 := fun s => if s = str "bad" then none else some (str "addr"), bech32Val := fun _ => none,
+                       lower := id, table := [] }
+    let mk (to : Str) (sym : Str) (n v : Int) (ty : Nat) : EthEvent :=
+      { to := to, symbol := sym, chainId := 3, value := v, nonce := n, claimType := ty,
+        bridge := List.replicate 40 'a', sender := List.replicate 40 'b', token := List.replicate 40 '0' }
+    let evs := [mk (str "good") (str "ETH") 7 100 ctLock, mk (str "bad") (str "X") 8 200 ctLock, mk (str "good") (str "cusdc") 9 300 ctBurn]
+    (relayBatch env (str "val") evs).map (fun c => (c.nonce, c.symbol, c.amount)) =
+      [(7, str "eth", 100), (9, str "cusdc", 300)] ∧
+    batchFieldsOK env (str "val") evs (relayBatch env (str "val") evs) = true ∧
+    -- a batch whose claims all repeat the last event is rejected by the judge
+    batchFieldsOK env (str "val") evs ((relayBatch env (str "val") evs).drop 1 ++ (relayBatch env (str "val") evs).drop 1) = false := by
+  decide
+
 /-! ### Sifchain → Ethereum -/
 
 /-- Field fidelity: an accepted lock/burn message carries the (last) sender attribute, the parsed (last)
